@@ -34,9 +34,10 @@ def gen_case(rng, maxops):
     dirs = [[]]
     files = []
     used = set([()])
+    bulked = set()
     for _ in range(rng.range(2, maxops)):
         k = rng.weighted([("join", 6), ("name", 3), ("parent", 3), ("abs", 1), ("mkdir", 5), ("mkfile", 5), ("stat", 4), ("size", 4),
-                          ("list", 3), ("visit", 2), ("nested", 2), ("remove", 2)])
+                          ("list", 3), ("visit", 2), ("nested", 2), ("remove", 2), ("bulk", 1 if rng.chance(1, 6) else 0)])
         if k == "join":
             lines.append([20] + enc(rand_path(rng) if rng.chance(9, 10) else []) + enc(rand_name(rng)))
         elif k == "name":
@@ -62,10 +63,18 @@ def gen_case(rng, maxops):
             else:
                 lines.append([41, rng.choice([0, 0, 1, 7, 100, 4096, 65536, rng.range(0, 3000)]) if not rng.chance(1, 12)
                               else rng.choice([(1 << 31) + 1, (1 << 32) + 5, (1 << 31) - 1])] + p)   # sparse files: sizes are size_t, not int
+        elif k == "bulk":
+            # a directory with a large fan-out (its listing needs several reads of the directory stream), then list / size it
+            cands = [d for d in dirs if d and tuple(d) not in bulked]
+            if not cands or len(bulked) >= 1: continue
+            p = rng.choice(cands)
+            lines.append([43, rng.choice([1100, 1500, 2300])] + p)
+            bulked.add(tuple(p))
+            lines.append([52] + p); lines.append([51] + p)
         elif k == "remove":
             # remove a file or an empty directory; the name may come back as the other kind later (long-lived Path objects
             # in the harness were asked about it before)
-            cands = [f for f in files] + [d for d in dirs if d and not any(len(x) > len(d) and x[:len(d)] == d for x in dirs + files)]
+            cands = [f for f in files] + [d for d in dirs if d and tuple(d) not in bulked and not any(len(x) > len(d) and x[:len(d)] == d for x in dirs + files)]
             if not cands: continue
             p = rng.choice(cands)
             lines.append([50] + p)
@@ -142,6 +151,6 @@ class C18(Spec):
 
     def classify(self, lines):
         names = {"20": "join", "21": "getPathName", "22": "getParentDirectory", "23": "isAbsolute", "40": "mkdir", "41": "create file",
-                 "50": "exists/isFile/isDirectory", "51": "size", "52": "listChildren", "53": "DirectoryVisitor", "54": "nested DirectoryVisitors", "55": "DirectoryVisitor used twice",
+                 "50": "exists/isFile/isDirectory", "51": "size", "52": "listChildren", "53": "DirectoryVisitor", "54": "nested DirectoryVisitors", "55": "DirectoryVisitor used twice", "43": "fill a directory with 1100-2300 files",
                  "60": "exists/isFile/isDirectory (trailing separator)", "61": "size (trailing separator)", "62": "listChildren (trailing separator)"}
         return sorted({"op:" + names.get(l.split()[0], "?") for l in lines[1:] if l.split()})
